@@ -15,6 +15,7 @@ import (
 // object is projected with an extra field "incoherent" (no specification
 // state has it, so the step is rejected).
 func (in *Interp[K, V]) Project() []any {
+	in.textBad = nil
 	var w = make([]any, len(in.objs))
 	for i, o := range in.objs {
 		w[i] = in.projectObj(o)
@@ -199,8 +200,8 @@ func projectSeqObj[K comparable, V, E any](in *Interp[K, V], el *elem[E], o *obj
 		return map[string]any{"kind": o.kind, "s": []any{}, "broken": "not a Sequential"}
 	}
 	var seq, bad = views(el, s)
-	if tb := textView(in.notation, o.v, s.AsArray()); tb != "" && bad == "" {
-		bad = tb
+	if tb := textView(in.notation, o.v, s.AsArray()); tb != "" {
+		in.textBad = append(in.textBad, o.kind+": "+tb) // a matter of C10 (text), not of the state
 	}
 	var res = map[string]any{"kind": o.kind, "s": seq}
 	switch x := o.v.(type) {
@@ -247,8 +248,8 @@ func (in *Interp[K, V]) projectCatalog(o *obj) map[string]any {
 	if vbad != "" {
 		bad = vbad
 	}
-	if tb := textView(in.notation, o.v, arr); tb != "" && bad == "" {
-		bad = tb
+	if tb := textView(in.notation, o.v, arr); tb != "" {
+		in.textBad = append(in.textBad, o.kind+": "+tb)
 	}
 	// no key outside the ordered view may be reachable through the index
 	for t := 0; t <= in.probe; t++ {
